@@ -277,6 +277,11 @@ fn dist(c: &DistCase, cov: &mut Cov) -> CheckResult {
 pub fn run(ctx: &mut Ctx) {
     ctx.rule = "n, d in 0..256 (incl. 0), seeds from {0,1,42,random,u64::MAX-k}, f32/f64; non-trivial = n>=2 and d>=2; distribution cases pool >= 6 calls of >= 100x100 entries; distinct by (type, n, d, seed)".into();
     ctx.assume("distribution tests at |z| <= 6.5 / KS lambda <= 3.5 (p ~ 1e-10 each); the OS-seeded variant is tested at the same thresholds");
+    // cases wait for helper threads; should the helpers ever need the global rayon pool, a case
+    // running on that pool's only worker would deadlock: run on a plain thread, with a watchdog
+    ctx.use_pool_thread = false;
+    ctx.plain_pool_threads = 4;
+    ctx.set_case_timeout(60.0);
     let t = ctx.tier;
     ctx.section(
         "shape-purity",
